@@ -17,6 +17,7 @@ pub mod c11;
 pub mod c11f;
 pub mod c12;
 pub mod c13;
+pub mod c13r;
 pub mod c14;
 pub mod c14r;
 pub mod c16;
